@@ -82,6 +82,13 @@ def gen(rng, tier):
         cases.append({"kind": "typestr", "s": s, "like": rng.choice(LEGAL), "bytes": False,
                       "fields": rng.choice(["none", "metadata"]), "via": rng.choice(["dict2node", "graph", "file"]),
                       "seed": rng.randrange(2 ** 30)})
+    # every NIRNode subclass that exists in the process but is not a serialisable primitive, addressed by its own name and
+    # with the fields its own constructor wants
+    for nm in sorted(all_subclasses()):
+        if nm not in LEGAL:
+            for via in ["dict2node", "graph", "file"]:
+                cases.append({"kind": "typestr", "s": nm, "like": "Scale", "bytes": False, "fields": "own", "via": via,
+                              "seed": rng.randrange(2 ** 30)})
     reps = 1 if tier == "quick" else 6
     for cls in LEGAL:
         for _ in range(reps):
@@ -94,7 +101,42 @@ def gen(rng, tier):
             for k in ["bogus", "Weight", "shape_", "nodes2", "TYPE"]:
                 cases.append({"kind": "fields", "cls": cls, "mut": ["add", k], "depth": rng.choice([0, 1, 2]),
                               "via": rng.choice(["dict2node", "graph", "file"]), "seed": seed})
+    # classes defined by the USER of the library after import (last: they stay defined for the rest of the process):
+    # one with a new name, one that happens to be called like a primitive
+    for nm in ["UserDefinedNode", "LIF"]:
+        for via in ["dict2node", "graph", "file"]:
+            cases.append({"kind": "typestr", "s": nm, "like": "LIF", "bytes": False, "fields": "user", "via": via,
+                          "seed": rng.randrange(2 ** 30)})
     return cases
+
+
+def all_subclasses():
+    import nir
+    out, todo = {}, [nir.NIRNode]
+    while todo:
+        c = todo.pop()
+        for sc in c.__subclasses__():
+            if sc.__name__ not in out:
+                out[sc.__name__] = sc
+                todo.append(sc)
+    return out
+
+
+USER_DEFINED = {}
+
+
+def define_user_class(name):
+    """what a user of the library may do: subclass NIRNode in their own code"""
+    import dataclasses
+    import nir
+    if name not in USER_DEFINED:
+        def post(self):
+            self.input_type = {"input": np.array([1])}
+            self.output_type = {"output": np.array([1])}
+        USER_DEFINED[name] = dataclasses.make_dataclass(
+            name, [("payload", object, dataclasses.field(default=None))], bases=(nir.NIRNode,), eq=False,
+            namespace={"__post_init__": post, "__module__": "user_code"})
+    return USER_DEFINED[name]
 
 
 def wrap(d, depth):
@@ -140,10 +182,22 @@ def run(c):
             d = {}
         elif c.get("fields") == "metadata":
             d = {"metadata": {"note": "x"}}
+        elif c.get("fields") == "own":
+            import dataclasses
+            cls = all_subclasses().get(c["s"])
+            d = {}
+            if cls is not None and dataclasses.is_dataclass(cls):
+                for f in dataclasses.fields(cls):
+                    if f.init and f.default is dataclasses.MISSING and f.default_factory is dataclasses.MISSING:
+                        d[f.name] = {"input": np.array([2])} if f.name.endswith("_type") else np.array([2.0])
+        elif c.get("fields") == "user":
+            define_user_class(c["s"])
+            if c["s"] not in LEGAL:
+                d = {"payload": np.array([1.0, 2.0])}
         d["type"] = c["s"].encode("utf8", "surrogatepass") if c["bytes"] else c["s"]
         depth = 0
-        expect_ok = (c["s"] == c["like"]) and not c["bytes"] and c.get("fields", "like") == "like"
-        if c.get("fields", "like") != "like" and c["s"] in LEGAL:
+        expect_ok = (c["s"] == c["like"]) and not c["bytes"] and c.get("fields", "like") in ("like", "user")
+        if c.get("fields", "like") not in ("like", "user") and c["s"] in LEGAL:
             expect_ok = None if not MANDATORY[c["s"]] else False
         if c["s"] in LEGAL and c["s"] != c["like"] and not c["bytes"]:
             expect_ok = None    # a legal name with another class's fields: may or may not construct; only the class matters
